@@ -205,7 +205,9 @@ package rapid
 
 //@ func (*repeat).more
 //@   requires [C03] repeatInv(r) && groupUsed(r)
-//@   ensures [C04,C12] implies(r.pContinue < 1, result == (float64(lastWord) * 0x1.0p-53 >= 1 - pContOf(old(r.count), r.minCount, r.maxCount, r.pContinue)))
+//   (C01, C05, C06 rest on it as well: the case presented, the result of a cut-short minimisation and the case saved
+//   in the fail file are the *pruned* recording, which must replay to the run that was recorded)
+//@   ensures [C01,C04,C05,C06,C12] implies(r.pContinue < 1, result == (float64(lastWord) * 0x1.0p-53 >= 1 - pContOf(old(r.count), r.minCount, r.maxCount, r.pContinue)))
 //@   ensures [C03] repeatInv(r) && groupUsed(r)
 //@   ensures [C03,C08] implies(result, r.count == old(r.count) + 1 && old(r.count) < r.maxCount && r.group >= 0)
 //@   ensures [C03,C08] implies(!result, r.count == old(r.count) && r.count >= r.minCount)
@@ -497,7 +499,8 @@ package rapid
 
 // Lock discipline and monitor invariants of T (C14): these fields are only touched under T.mu, and every
 // store to them respects the transition invariant below (whatever other goroutines did in between).
-//@ guarded T.failed, T.cleanups, T.ctx, T.cancelCtx by mu
+//@ guarded [C02,C14] T.failed by mu
+//@ guarded [C10,C14] T.cleanups, T.ctx, T.cancelCtx by mu
 //@ transition T.failed [C02,C14]: old == "" || new != ""
 // The cleanup stack changes by one element at a time, relative to what it holds at the moment of the store (whatever
 // other goroutines pushed meanwhile): push one, or pop the top.
@@ -577,14 +580,14 @@ package rapid
 //@   panics stopTest [C02]: t.failed != "" && strOf(panicval) == t.failed && unlocked(t)
 //@   modifies t.failed, lockmode[addr(t.mu)]
 //@ func (*T).Skipf
-//@   ensures false
-//@   panics invalidData [C02]: true
+//@   ensures [C02,C08,C09] false
+//@   panics invalidData [C02,C08,C09]: true
 //@ func (*T).Skip
-//@   ensures false
-//@   panics invalidData [C02]: true
+//@   ensures [C02,C08,C09] false
+//@   panics invalidData [C02,C08,C09]: true
 //@ func (*T).SkipNow
-//@   ensures false
-//@   panics invalidData [C02]: true
+//@   ensures [C02,C08,C09] false
+//@   panics invalidData [C02,C08,C09]: true
 
 //@ func (*T).Cleanup
 //@   requires [C14] unlocked(t)
@@ -631,12 +634,12 @@ package rapid
 //@   at cleanup#0 onpanic cbPanicked = true
 //@   ensures [C09,C13] implies(!old(cbPanicked), !cbPanicked)
 //   (C01 too: findBug re-uses the T; the case it reports must have run as it would on the fresh T of the replay)
-//@   ensures [C01,C10,C11,C14] len(t.cleanups) == 0 && t.ctx == nil && t.cancelCtx == nil && !cleaning(t)
+//@   ensures [C01,C07,C10,C11,C14] len(t.cleanups) == 0 && t.ctx == nil && t.cancelCtx == nil && !cleaning(t)
 //@   ensures [C14] unlocked(t)
 //@   ensures [C10] implies(old(t.ctx) != nil, cancelled[old(t.ctx)])
 //@   ensures [C02] implies(old(t.failed) != "", t.failed != "")
 //@   ensures [C10] sameOrNewArr(t) && drawn >= old(drawn)
-//@   panics any [C01,C10,C11,C14]: drawn >= old(drawn) && sameOrNewArr(t) && len(t.cleanups) == 0 && t.ctx == nil && t.cancelCtx == nil && !cleaning(t) && unlocked(t) && implies(old(t.ctx) != nil, cancelled[old(t.ctx)]) && implies(old(t.failed) != "", t.failed != "") && implies(!old(cbFalsified) && cbFalsified, !isInvalidData(panicval))
+//@   panics any [C01,C07,C10,C11,C14]: drawn >= old(drawn) && sameOrNewArr(t) && len(t.cleanups) == 0 && t.ctx == nil && t.cancelCtx == nil && !cleaning(t) && unlocked(t) && implies(old(t.ctx) != nil, cancelled[old(t.ctx)]) && implies(old(t.failed) != "", t.failed != "") && implies(!old(cbFalsified) && cbFalsified, !isInvalidData(panicval))
 //@   modifies t.failed, t.cleanups, elems(t.cleanups), t.ctx, t.cancelCtx, t.cleaning.v, t.draws, t.attempts, drawn, cancelled[t.ctx], lockmode[addr(t.mu)], cbFalsified, cbPanicked
 //   LIFO (C10): the callback run is the one just popped from the top of the stack - the element right above the
 //   new top in the same backing array.
@@ -701,8 +704,10 @@ package rapid
 //   (C01, C07 too: findBug re-uses the T - the case it reports, and the case a printed seed reproduces, must have run
 //   as they would on the fresh T of the replay)
 //@   ensures [C01,C07,C10,C11] len(t.cleanups) == 0 && t.ctx == nil && t.cancelCtx == nil && !cleaning(t) && unlocked(t)
-//@   ensures [C01,C02,C07,C09,C11,C13] implies(result == nil, t.failed == "")
-//@   ensures [C01,C02,C07,C09,C11,C13] implies(result != nil && isInvalidData(result.data), t.failed == "")
+//   (C14 too: a failure signalled by a goroutine of the property - at the latest while the cleanups wait for it - is
+//   seen by the check that follows the cleanup phase)
+//@   ensures [C01,C02,C07,C09,C11,C13,C14] implies(result == nil, t.failed == "")
+//@   ensures [C01,C02,C07,C09,C11,C13,C14] implies(result != nil && isInvalidData(result.data), t.failed == "")
 //@   ensures [C02] implies(result != nil, fresh(result))
 //@   ensures [C05] implies(result != nil, result.traceback != "    <no error>\n")
 //@   ensures drawn >= old(drawn)
@@ -759,7 +764,7 @@ package rapid
 //@   requires [C08] t.failed == "" && unlocked(t)
 //@   ensures [C02,C08] t.failed == "" && implies(skipped, invalid) && unlocked(t) && drawn >= old(drawn)
 //   An action counts as skipped only if it gave up before starting any Draw - then it has discarded nothing (C04).
-//@   ensures [C01,C04,C07,C08,C11] implies(skipped, t.attempts == old(t.attempts) && discards == old(discards))
+//@   ensures [C01,C04,C07,C08,C11,C13] implies(skipped, t.attempts == old(t.attempts) && discards == old(discards))
 //@   ensures [C04,C08] drawRely(t)
 //@   panics any [C02,C08]: unlocked(t) && implies(isInvalidData(panicval), t.failed != "") && drawRely(t)
 //@   modifies drawn, t.failed, t.cleanups, elems(t.cleanups), t.ctx, t.cancelCtx, t.draws, t.attempts, lockmode[addr(t.mu)], stream(t.s), discards, actFalsified
@@ -977,7 +982,7 @@ package rapid
 //@   at tb.Logf#2 set ffLoggedG = true
 //@   at tb.Logf#3 set ffLoggedG = true
 //@   ensures [C17] implies(result1 == nil && result2 == nil, ffLoggedG)
-//@   at checkOnce#1 assert [C01,C17] clean(arg0) && hasType(arg0.s, bufBitStream) && len(deref(arg0.s, bufBitStream).buf) == len(buf) && arr(deref(arg0.s, bufBitStream).buf) == arr(buf)
+//@   at checkOnce#1 assert [C01,C11,C17] clean(arg0) && hasType(arg0.s, bufBitStream) && len(deref(arg0.s, bufBitStream).buf) == len(buf) && arr(deref(arg0.s, bufBitStream).buf) == arr(buf)
 //@   noframe "replays the property"
 //@   requires [C17] prop != nil
 //@   ensures [C17] tbFailed == old(tbFailed) && tbErrors == old(tbErrors)
@@ -1064,9 +1069,9 @@ package rapid
 //@   ensures [C07] implies(searched && (result6 != nil || result7 != nil), result3 == lastInit)
 //@   ensures [C09] implies(result6 == nil && result7 == nil, searched && result3 == 0 && result4 == "")
 //@   ensures [C02,C17] tbFailed == old(tbFailed) && tbErrors == old(tbErrors)
-//@   modifies heap, drawn, runs, lastInit, searched, sawFailure, lockmode, cancelled, ffFalsified, cleanupSkipped, propFalsified, runesWritten, ioFailed, fsClosed, cmpAt, lessAt, untilG, ffTried, discards, globbed, cleanupFalsified, cbFalsified, caseExt, caseRuns, caseWall, totalG, ffLoggedG, cbPanicked, p2eA, p2eB
+//@   modifies heap, drawn, runs, lastInit, searched, sawFailure, lockmode, cancelled, ffFalsified, cleanupSkipped, propFalsified, runesWritten, ioFailed, fsClosed, cmpAt, lessAt, untilG, ffTried, discards, globbed, cleanupFalsified, cbFalsified, caseExt, caseRuns, caseWall, totalG, ffLoggedG, cbPanicked, p2eA, p2eB, globPatG
 //@   at findBug#0 assert [C07,C17,C18] seed == old(seed) && checks == old(checks) && !tbFailed
-//@   at failFilePattern#0 assert [C06] arg0 == tbNameOf(tb)
+//@   at failFilePattern#0 assert [C06,C16,C17] arg0 == tbNameOf(tb)
 //   The test's own fail-file directory is searched whenever the caller asks for it, whether or not an explicit
 //   -rapid.failfile was given as well (C06, C17).
 //@   at filepath.Glob#0 set globbed = true
@@ -1117,7 +1122,7 @@ package rapid
 //@   ensures [C09] tbErrors == old(tbErrors)
 //@   panics goexit [C02,C06,C09,C16]: tbFailed && tbErrors == old(tbErrors) + 1 && fsRenames <= old(fsRenames) + 1
 //@   ensures [C06,C16] fsRenames <= old(fsRenames) + 1
-//@   modifies heap, drawn, runs, lastInit, searched, sawFailure, lockmode, cancelled, tbFailed, tbErrors, fsWritten, fsClosed, fsRenamed, fsTmpName, fsTmpDir, fsRenamedAtCreate, fsRenames, runesWritten, capturedOut, cleanupSkipped, ffFalsified, propFalsified, ioFailed, cmpAt, lessAt, untilG, joinedG, fsOtherCreate, ffTried, discards, cleanupFalsified, globbed, cbFalsified, fsWriteErr, caseExt, caseRuns, caseWall, totalG, ffLoggedG, bufOutG, cbPanicked, p2eA, p2eB
+//@   modifies heap, drawn, runs, lastInit, searched, sawFailure, lockmode, cancelled, tbFailed, tbErrors, fsWritten, fsClosed, fsRenamed, fsTmpName, fsTmpDir, fsRenamedAtCreate, fsRenames, runesWritten, capturedOut, cleanupSkipped, ffFalsified, propFalsified, ioFailed, cmpAt, lessAt, untilG, joinedG, fsOtherCreate, ffTried, discards, cleanupFalsified, globbed, cbFalsified, fsWriteErr, caseExt, caseRuns, caseWall, totalG, ffLoggedG, bufOutG, cbPanicked, p2eA, p2eB, globPatG
 //@   at captureTestOutput#0 set capturedOut = arr(result)
 //@   at saveFailFile#0 assert [C06,C16] fsRenames == old(fsRenames) && arr(arg2) == capturedOut
 //   The fail file is saved under the directory and name derived from the very test name that doCheck globs for.
@@ -1440,6 +1445,130 @@ package rapid
 //@   panics any: true
 //@ func Uintptr
 //@   at newIntegerGen#0 assert [C03,C18] arg0 == uintptrKind
+//@   panics any: true
+
+// The Min/Max/Range shorthands hand on the kind of their own type and exactly the bounds they were given (C03: the
+// range a caller asked for is the range the value method - proved against the generator's fields - enforces; C18:
+// every value of that range, and its edges, are reachable only if the stored bounds are the requested ones).
+//@ func ByteMin
+//@   at newUintMinGen#0 assert [C03,C18] arg0 == byteKind && arg1 == uint64(min)
+//@   panics any: true
+//@ func IntMin
+//@   at newIntMinGen#0 assert [C03,C18] arg0 == intKind && arg1 == int64(min)
+//@   panics any: true
+//@ func Int8Min
+//@   at newIntMinGen#0 assert [C03,C18] arg0 == int8Kind && arg1 == int64(min)
+//@   panics any: true
+//@ func Int16Min
+//@   at newIntMinGen#0 assert [C03,C18] arg0 == int16Kind && arg1 == int64(min)
+//@   panics any: true
+//@ func Int32Min
+//@   at newIntMinGen#0 assert [C03,C18] arg0 == int32Kind && arg1 == int64(min)
+//@   panics any: true
+//@ func Int64Min
+//@   at newIntMinGen#0 assert [C03,C18] arg0 == int64Kind && arg1 == int64(min)
+//@   panics any: true
+//@ func UintMin
+//@   at newUintMinGen#0 assert [C03,C18] arg0 == uintKind && arg1 == uint64(min)
+//@   panics any: true
+//@ func Uint8Min
+//@   at newUintMinGen#0 assert [C03,C18] arg0 == uint8Kind && arg1 == uint64(min)
+//@   panics any: true
+//@ func Uint16Min
+//@   at newUintMinGen#0 assert [C03,C18] arg0 == uint16Kind && arg1 == uint64(min)
+//@   panics any: true
+//@ func Uint32Min
+//@   at newUintMinGen#0 assert [C03,C18] arg0 == uint32Kind && arg1 == uint64(min)
+//@   panics any: true
+//@ func Uint64Min
+//@   at newUintMinGen#0 assert [C03,C18] arg0 == uint64Kind && arg1 == uint64(min)
+//@   panics any: true
+//@ func UintptrMin
+//@   at newUintMinGen#0 assert [C03,C18] arg0 == uintptrKind && arg1 == uint64(min)
+//@   panics any: true
+//@ func ByteMax
+//@   at newUintMaxGen#0 assert [C03,C18] arg0 == byteKind && arg1 == uint64(max)
+//@   panics any: true
+//@ func IntMax
+//@   at newIntMaxGen#0 assert [C03,C18] arg0 == intKind && arg1 == int64(max)
+//@   panics any: true
+//@ func Int8Max
+//@   at newIntMaxGen#0 assert [C03,C18] arg0 == int8Kind && arg1 == int64(max)
+//@   panics any: true
+//@ func Int16Max
+//@   at newIntMaxGen#0 assert [C03,C18] arg0 == int16Kind && arg1 == int64(max)
+//@   panics any: true
+//@ func Int32Max
+//@   at newIntMaxGen#0 assert [C03,C18] arg0 == int32Kind && arg1 == int64(max)
+//@   panics any: true
+//@ func Int64Max
+//@   at newIntMaxGen#0 assert [C03,C18] arg0 == int64Kind && arg1 == int64(max)
+//@   panics any: true
+//@ func UintMax
+//@   at newUintMaxGen#0 assert [C03,C18] arg0 == uintKind && arg1 == uint64(max)
+//@   panics any: true
+//@ func Uint8Max
+//@   at newUintMaxGen#0 assert [C03,C18] arg0 == uint8Kind && arg1 == uint64(max)
+//@   panics any: true
+//@ func Uint16Max
+//@   at newUintMaxGen#0 assert [C03,C18] arg0 == uint16Kind && arg1 == uint64(max)
+//@   panics any: true
+//@ func Uint32Max
+//@   at newUintMaxGen#0 assert [C03,C18] arg0 == uint32Kind && arg1 == uint64(max)
+//@   panics any: true
+//@ func Uint64Max
+//@   at newUintMaxGen#0 assert [C03,C18] arg0 == uint64Kind && arg1 == uint64(max)
+//@   panics any: true
+//@ func UintptrMax
+//@   at newUintMaxGen#0 assert [C03,C18] arg0 == uintptrKind && arg1 == uint64(max)
+//@   panics any: true
+//@ func ByteRange
+//@   at newUintRangeGen#0 assert [C03,C18] arg0 == byteKind && arg1 == uint64(min) && arg2 == uint64(max)
+//@   panics any: true
+//@ func IntRange
+//@   at newIntRangeGen#0 assert [C03,C18] arg0 == intKind && arg1 == int64(min) && arg2 == int64(max)
+//@   panics any: true
+//@ func Int8Range
+//@   at newIntRangeGen#0 assert [C03,C18] arg0 == int8Kind && arg1 == int64(min) && arg2 == int64(max)
+//@   panics any: true
+//@ func Int16Range
+//@   at newIntRangeGen#0 assert [C03,C18] arg0 == int16Kind && arg1 == int64(min) && arg2 == int64(max)
+//@   panics any: true
+//@ func Int32Range
+//@   at newIntRangeGen#0 assert [C03,C18] arg0 == int32Kind && arg1 == int64(min) && arg2 == int64(max)
+//@   panics any: true
+//@ func Int64Range
+//@   at newIntRangeGen#0 assert [C03,C18] arg0 == int64Kind && arg1 == int64(min) && arg2 == int64(max)
+//@   panics any: true
+//@ func UintRange
+//@   at newUintRangeGen#0 assert [C03,C18] arg0 == uintKind && arg1 == uint64(min) && arg2 == uint64(max)
+//@   panics any: true
+//@ func Uint8Range
+//@   at newUintRangeGen#0 assert [C03,C18] arg0 == uint8Kind && arg1 == uint64(min) && arg2 == uint64(max)
+//@   panics any: true
+//@ func Uint16Range
+//@   at newUintRangeGen#0 assert [C03,C18] arg0 == uint16Kind && arg1 == uint64(min) && arg2 == uint64(max)
+//@   panics any: true
+//@ func Uint32Range
+//@   at newUintRangeGen#0 assert [C03,C18] arg0 == uint32Kind && arg1 == uint64(min) && arg2 == uint64(max)
+//@   panics any: true
+//@ func Uint64Range
+//@   at newUintRangeGen#0 assert [C03,C18] arg0 == uint64Kind && arg1 == uint64(min) && arg2 == uint64(max)
+//@   panics any: true
+//@ func UintptrRange
+//@   at newUintRangeGen#0 assert [C03,C18] arg0 == uintptrKind && arg1 == uint64(min) && arg2 == uint64(max)
+//@   panics any: true
+//@ func Float32Min
+//@   at Float32Range#0 assert [C03,C18] arg0 == min && arg1 == math.MaxFloat32
+//@   panics any: true
+//@ func Float32Max
+//@   at Float32Range#0 assert [C03,C18] arg0 == -math.MaxFloat32 && arg1 == max
+//@   panics any: true
+//@ func Float64Min
+//@   at Float64Range#0 assert [C03,C18] arg0 == min && arg1 == math.MaxFloat64
+//@   panics any: true
+//@ func Float64Max
+//@   at Float64Range#0 assert [C03,C18] arg0 == -math.MaxFloat64 && arg1 == max
 //@   panics any: true
 
 // The collection constructors hand their bounds on unchanged (C03: the length limits a caller asked for are the
@@ -1824,7 +1953,15 @@ package rapid
 //@   at fmt.Sprintf#0 assert [C06,C16] arg0 == "%s-%s-%d.fail"
 //@   at filepath.Join#0 assert [C06,C16] arg0[0] == "testdata" && arg0[1] == "rapid" && len(arg0) == 3
 
+// globPatG: the last pattern made by failFilePattern. filepath.Glob (deps.gospec) requires its argument to be that
+// pattern: fail files are discovered through the "<name>-*.fail" pattern and through nothing wider (C16: a pattern that
+// also matches ".rapid-failfile-tmp-*" picks up what a killed save has left behind; C17: a file that is not a fail file
+// of this test is never loaded).
+//@ ghost globPatG Str
 //@ func failFilePattern
+//@   at filepath.Join#1 set globPatG = result
+//@   ensures [C06,C16,C17] globPatG == result
+//@   modifies globPatG, runesWritten
 //@   at kindaSafeFilename#0 assert [C06,C16,C17] arg0 == testName
 //@   at kindaSafeFilename#1 assert [C06,C16,C17] arg0 == testName
 //@   at fmt.Sprintf#0 assert [C06,C16,C17] arg0 == "%s-*.fail"
